@@ -26,7 +26,8 @@ REQUIRED = ["line_events", "lock_acquisitions", "vevent_waits"]
 WATCHDOG = {"quick": 240, "thorough": 900}
 
 SINGLE = ["map", "flat_map", "retry", "poll", "throttle", "timeout", "cos"]
-OPS = ["submit", "cancel", "add_cb", "result", "complete", "shutdown", "cancel_inner"]
+OPS = ["submit", "cancel", "add_cb", "result", "complete", "shutdown", "cancel_inner", "timer"]
+TRIPLES = [["map", "cos", "map"], ["retry", "timeout", "map"], ["poll", "timeout", "flat_map"], ["throttle", "timeout", "poll"]]
 
 
 def cases(tier, seed):
@@ -40,17 +41,24 @@ def cases(tier, seed):
     else:
         stacks2 = pairs2
         cap = 60
-    for layers in stacks1 + stacks2:
+    for layers in stacks1 + stacks2 + TRIPLES:
         for a in OPS:
+            if a == "timer":
+                continue
             # one case per (stack, victim op): all interventions inside
             out.append({"name": "api.pair/%s/%s" % (">".join(layers), a), "kind": "pair", "layers": layers,
                         "victim": a, "cap": cap if len(layers) == 1 else max(6, cap // 2)})
         out.append({"name": "api.pair/%s/worker" % ">".join(layers), "kind": "pair", "layers": layers,
                     "victim": "worker", "cap": cap})
+        if "timeout" in layers:
+            out.append({"name": "api.pair/%s/worker-timer" % ">".join(layers), "kind": "pair", "layers": layers,
+                        "victim": "worker-timer", "cap": cap})
     for base in ("sync", "pool"):
         for layers in stacks1 + (stacks2 if tier == "thorough" else stacks2[:4]):
             out.append({"name": "nested.submit/%s/%s" % (base, ">".join(layers)), "kind": "nested", "base": base,
                         "layers": layers})
+    for layers in stacks1 + (stacks2 if tier == "thorough" else stacks2[:6]):
+        out.append({"name": "nested.cb/%s" % ">".join(layers), "kind": "nestedcb", "layers": layers})
     nf = 16 if tier == "quick" else 160
     for i in range(nf):
         out.append({"name": "api.fuzz/%d" % i, "kind": "fuzz", "idx": i, "n": 12 if tier == "quick" else 30})
@@ -71,6 +79,24 @@ def layer_specs(layers):
             L.update(timeout=100.0)
         out.append(L)
     return out
+
+
+def fire_next_timer(only=None):
+    """Jump the virtual clock to the earliest pending timed wait (optionally only of
+    threads whose role contains ``only``) and wake it as timed out."""
+    with instr.CV:
+        cands = [x for x in instr.CLOCK.waiters if not x.woken and x.deadline is not None
+                 and (only is None or only in getattr(x.thread, "vf_role", ""))]
+        if not cands:
+            return False
+        x = min(cands, key=lambda x: x.deadline)
+        if instr.CLOCK.now < x.deadline:
+            instr.CLOCK.now = x.deadline
+        x.woken = True
+        x.timed_out = True
+        instr.CLOCK.timers_fired += 1
+        instr.CV.notify_all()
+    return True
 
 
 class PairScenario(object):
@@ -117,6 +143,8 @@ class PairScenario(object):
                     me.fut(p[0]).cancel()
             elif name == "shutdown":
                 call("shutdown", top.shutdown, True, _tag=who)
+            elif name == "timer":
+                fire_next_timer()
             elif name == "notify":
                 for ex in ctx.b.executors:
                     if hasattr(ex, "notify"):
@@ -129,6 +157,9 @@ class PairScenario(object):
         if self.a == "worker":
             ths = [t for t in instr.TRACKED if t.vf_started]
             return ths[-1].vf_role if ths else "V"
+        if self.a == "worker-timer":
+            ths = [t for t in instr.TRACKED if t.vf_started and "Timeout" in t.vf_role]
+            return ths[-1].vf_role if ths else "V"
         return "V"
 
     def start_victim(self, ctx):
@@ -138,6 +169,8 @@ class PairScenario(object):
                 self.op(ctx, "complete", "T")
                 self.op(ctx, "submit", "T")
             return ctx.actor("T", trigger).go()
+        if self.a == "worker-timer":
+            return ctx.actor("T", fire_next_timer, "Timeout").go()
         return ctx.actor("V", self.op, ctx, self.a, "V").go()
 
     def intervene(self, ctx):
@@ -434,7 +467,96 @@ def run_fuzz(case, res):
             end(ctx)
 
 
+def run_nestedcb(case, res):
+    """Done-callbacks that submit again, run from every internal thread context:
+    the delegate's completing thread, the canceller, the timeout thread, the
+    poll thread, the shutdown sweep of cancel_on_shutdown."""
+    layers = case["layers"]
+    for how in ("value", "exc", "cancel", "timeout", "shutdown"):
+        if how == "timeout" and "timeout" not in layers:
+            continue
+        if how == "shutdown" and "cos" not in layers:
+            continue
+        for level in range(len(layers) + 1):
+            begin("vt")
+            ctx = Ctx()
+            try:
+                spec = {"base": "me", "layers": layer_specs(layers)}
+                for L in spec["layers"]:
+                    if L["t"] == "timeout" and how == "timeout":
+                        L["timeout"] = 1.0
+                    if L["t"] == "retry":
+                        L["max_attempts"] = 1
+                b = stacks.build(ctx, spec)
+                target = b.executors[level]
+                state = {"n": 0, "futs": []}
+
+                def cb(_f):
+                    if state["n"] >= 3:
+                        return
+                    state["n"] += 1
+                    try:
+                        state["futs"].append(call("nested.submit", target.submit, lambda: "nested"))
+                    except RuntimeError as e:
+                        if "cannot schedule" not in str(e):
+                            raise
+
+                def client():
+                    fs = [b.top.submit(lambda i=i: i) for i in range(2)]
+                    for f in fs:
+                        f.add_done_callback(cb)
+                    return fs
+
+                a = ctx.actor("C", client).go()
+                ok = drive([a]) == "ok"
+                instr.advance(0.01)
+
+                def finisher():
+                    me = b.base
+                    if how == "value":
+                        for i in me.pending():
+                            me.complete(i, 1)
+                    elif how == "exc":
+                        for i in me.pending():
+                            me.fail(i, UserErrorA("x"))
+                    elif how == "cancel":
+                        for f in (a.value or []):
+                            f.cancel()
+                    elif how == "shutdown":
+                        b.top.shutdown(True)
+                if ok and not LM.deadlocks:
+                    fa = ctx.actor("F", finisher).go()
+                    ok = drive([fa]) == "ok"
+                    if ok and not LM.deadlocks:
+                        instr.advance(3.0)
+                        # let nested submissions finish too, then shut down
+                        for _ in range(3):
+                            fb = ctx.actor("F2", lambda: [b.base.complete(i, 2) for i in b.base.pending()]).go()
+                            drive([fb])
+                            instr.advance(0.5)
+                        sd = ctx.actor("S", b.top.shutdown, True).go()
+                        ok = drive([sd]) == "ok"
+                res.execs += 1
+                check_common(res)
+                label = "%s/%s@%d" % (">".join(layers), how, level)
+                if LM.deadlocks:
+                    harness.mark_recycle()
+                elif not ok:
+                    res.violation("hang/nested-cb/%s" % how, "client/finisher/shutdown did not return in %s: %s" % (label, instr.describe_threads()),
+                                  stacks=hang_report(ctx.actors))
+                    harness.mark_recycle()
+                if state["n"]:
+                    res.key("nestedcb", label)
+                res.sample({"stack": layers, "completion": how, "callback_submits_to_level": level, "callbacks_ran": state["n"]}, limit=1)
+            finally:
+                end(ctx)
+            if harness.need_recycle():
+                return
+
+
 def run_case(case, res):
+    if case["kind"] == "nestedcb":
+        return run_nestedcb(case, res)
     if case["kind"] == "pair":
         run_pair(case, res)
     elif case["kind"] == "nested":
